@@ -8,7 +8,8 @@
 //! the schedule of the case releases one at a time, with a fault decision.
 //!
 //! Line protocol (one output line per op line; the Lean driver `drv_c02` prints the same):
-//!   cfg <condput|rename|lock|naive> <w<v>|r<v>|l>…   task i = writer of version v / reader of version v / latest reader
+//!   cfg <condput|rename|lock|lockc|naive> <w<v>|r<v>|l>…   task i = writer of version v / reader of version v / latest reader
+//!                             (lockc: the CommitLock refuses `lock(v)` with CommitConflict when version v is committed)
 //!   s <task> <ok|fb|lr|dup>   release the parked call of <task>: execute | fail before | lost response | executed twice
 //!   c <task>                  crash <task> where it stands
 //!   end                       crash every task that is still running
@@ -50,6 +51,7 @@ enum Hk {
     CondPut,
     Rename,
     Lock,
+    LockC,
     Naive,
 }
 
@@ -131,7 +133,12 @@ impl World {
         let handler: Arc<dyn CommitHandler> = match self.hk {
             Hk::CondPut => Arc::new(ConditionalPutCommitHandler),
             Hk::Rename => Arc::new(RenameCommitHandler),
-            Hk::Lock => Arc::new(GatedLock { cell: self.lock.clone(), h }),
+            Hk::Lock => Arc::new(GatedLock { cell: self.lock.clone(), h, checks: None }),
+            Hk::LockC => Arc::new(GatedLock {
+                cell: self.lock.clone(),
+                h,
+                checks: Some((self.raw.clone() as Arc<dyn object_store::ObjectStore>, Path::from(BASE))),
+            }),
             Hk::Naive => Arc::new(UnsafeCommitHandler),
         };
         let raw_os = self.raw_os.clone();
@@ -452,6 +459,7 @@ async fn exec(schema: Schema, lines: &[String]) -> CaseResult {
                     "condput" => Some(Hk::CondPut),
                     "rename" => Some(Hk::Rename),
                     "lock" => Some(Hk::Lock),
+                    "lockc" => Some(Hk::LockC),
                     "naive" => Some(Hk::Naive),
                     _ => None,
                 };
@@ -619,14 +627,14 @@ async fn exec(schema: Schema, lines: &[String]) -> CaseResult {
 // fault free and with one fault (fb / lr / dup / crash) at every position
 
 /// (handler, schedule length)
-const EXH: [(&str, usize); 4] = [("condput", 3), ("rename", 7), ("lock", 10), ("naive", 3)];
+const EXH: [(&str, usize); 5] = [("condput", 3), ("rename", 7), ("lock", 10), ("lockc", 9), ("naive", 3)];
 const KINDS: usize = 4;
 
 fn exh_free_total() -> usize {
     EXH.iter().map(|(_, l)| 1usize << l).sum()
 }
 fn exh_fault_total() -> usize {
-    EXH.iter().take(3).map(|(_, l)| (1usize << l) * l * KINDS).sum()
+    EXH.iter().take(4).map(|(_, l)| (1usize << l) * l * KINDS).sum()
 }
 
 fn exh_case(h: &str, len: usize, sched: usize, fault: Option<(usize, usize)>) -> Vec<String> {
@@ -662,7 +670,7 @@ fn gen_free(mut idx: usize) -> Vec<String> {
 
 /// idx-th single-fault case in a fixed order (handler, schedule, position, kind)
 fn gen_faulted(mut idx: usize) -> Vec<String> {
-    for (h, l) in EXH.iter().take(3) {
+    for (h, l) in EXH.iter().take(4) {
         let n = (1usize << l) * l * KINDS;
         if idx < n {
             let pk = idx % (l * KINDS);
@@ -675,7 +683,7 @@ fn gen_faulted(mut idx: usize) -> Vec<String> {
 }
 
 fn gen_random(rng: &mut Rng) -> Vec<String> {
-    let h = *rng.pick(&["condput", "rename", "rename", "lock", "lock", "condput", "naive"]);
+    let h = *rng.pick(&["condput", "rename", "rename", "lock", "lock", "lockc", "condput", "naive"]);
     let n = rng.range(2, 5) as usize;
     let nv = rng.range(1, 3);
     let mut specs = vec![];
@@ -696,7 +704,7 @@ fn gen_random(rng: &mut Rng) -> Vec<String> {
     let mut lines = vec![format!("cfg {h} {}", specs.join(" "))];
     let mut steps = vec![0usize; n];
     let per = match h {
-        "lock" => 6,
+        "lock" | "lockc" => 6,
         "rename" => 4,
         _ => 2,
     };
@@ -787,7 +795,7 @@ impl Prop for C02 {
     }
 
     fn rule(&self) -> String {
-        "two writers of the same version under EVERY binary schedule of length 3 (conditional put), 7 (rename), 10 (lock handler), 3 (UnsafeCommitHandler, contrast only), fault free; the same schedules with one fault (fail-before / lost response / duplicated request / crash) at every position (quick: an evenly spread seed-dependent sample of 3000, thorough: all); then seeded random cases: 2-5 tasks (writers of 1-3 versions, version readers, latest readers), random schedules with 0-50% faulty releases, fault-free probes of fresh readers in the middle and at the end; <= 10% malformed lines. Non-trivial = at least two writers and some manifest got published.".into()
+        "two writers of the same version under EVERY binary schedule of length 3 (conditional put), 7 (rename), 10 (lock handler), 9 (lock handler with a CommitLock that refuses committed versions), 3 (UnsafeCommitHandler, contrast only), fault free; the same schedules with one fault (fail-before / lost response / duplicated request / crash) at every position (quick: an evenly spread seed-dependent sample of 3000, thorough: all); then seeded random cases: 2-5 tasks (writers of 1-3 versions, version readers, latest readers), random schedules with 0-50% faulty releases, fault-free probes of fresh readers in the middle and at the end; <= 10% malformed lines. Non-trivial = at least two writers and some manifest got published.".into()
     }
 }
 
